@@ -306,6 +306,9 @@ pub struct Spec2<T> {
     pub x_lay: Layout,
     pub y_lay: Layout,
     pub sto: StoCombo,
+    /// x and y are views into this one table that start at the same element: x = table[..nx]
+    /// (stride 1), y = every second element (stride 2). Only used with view storage (VV).
+    pub alias_table: Option<Array1<T>>,
 }
 
 impl<T: Flt> Spec2<T> {
@@ -321,10 +324,21 @@ impl<T: Flt> Spec2<T> {
             x_lay: Layout::c(1),
             y_lay: Layout::c(1),
             sto: StoCombo::OO,
+            alias_table: None,
         }
     }
     pub fn dynamic(mut self, d: bool) -> Self {
         self.dynamic = d;
+        self
+    }
+    /// make x and y aliased views of one table (same first element, strides 1 and 2); the table
+    /// has 2*ny-1 >= nx elements; x and y are set to the values the views will show
+    pub fn aliased_axes(mut self, table: Array1<T>, nx: usize, ny: usize) -> Self {
+        assert!(table.len() >= nx && table.len() >= 2 * ny - 1);
+        self.x = Some(table.iter().take(nx).copied().collect());
+        self.y = Some(table.iter().step_by(2).take(ny).copied().collect());
+        self.alias_table = Some(table);
+        self.sto = StoCombo::VV;
         self
     }
     pub fn axis_x(&self) -> Vec<T> {
